@@ -7,6 +7,7 @@ import (
 	"github.com/FollowTheProcess/spok/parser"
 	"os"
 	"path/filepath"
+	"regexp"
 	"strings"
 	"syscall"
 	"testing"
@@ -127,6 +128,7 @@ func TestPlan(t *testing.T) {
 		p.Shards = append(p.Shards, ev.ShardSpec{Name: "inprocess-0", Test: "^TestVarsInProcess$", TimeoutS: 600})
 	case "C09":
 		binShards("^TestFail$", 16, 60, 32, 4000)
+		p.Shards = append(p.Shards, ev.ShardSpec{Name: "failtemplates-0", Test: "^TestFailTemplates$", TimeoutS: 900})
 	case "C20":
 		binShards("^TestReport$", 16, 40, 32, 3000)
 	case "C19":
@@ -749,6 +751,8 @@ func replayOther(t *testing.T, v ev.Violation, raw []byte) *rp.Fail {
 		return execReadFaults(t, nil, newBox(t))
 	case "find-crowded":
 		return execFindCrowded(t, nil)
+	case "failtemplate":
+		return execFailTemplates(nil, newBox(t), nil)
 	case "unpriv-find":
 		var c PermCase
 		if err := json.Unmarshal(raw, &c); err != nil {
@@ -1378,6 +1382,102 @@ func TestFail(t *testing.T) {
 		}
 		return execFail(s, b, c)
 	})
+}
+
+// TestFailTemplates (C09): (a) many failing tasks in one invocation - 1, 2, 255, 256, 257, 512, 1000 of
+// them, each with its own failing command - under {plain, --json, --quiet, --force}: a non-zero exit and
+// an error that names one of them, whatever their number; (b) a failing command much longer than a
+// terminal is wide, with the variables a terminal sets (COLUMNS, LINES, TERM) in the environment: the
+// error still names the task.
+func TestFailTemplates(t *testing.T) {
+	s := ev.Open(t, "C09")
+	b := newBox(t)
+	seen := map[string]bool{}
+	report := func(sig, msg string, c any) {
+		if !seen[sig] {
+			seen[sig] = true
+			s.Violation("failtemplate", sig, msg, 2, c)
+		}
+	}
+	if f := execFailTemplates(s, b, report); f != nil || s.Failed() {
+		t.Fatal("violations recorded")
+	}
+}
+
+func execFailTemplates(s *ev.Shard, b *sandbox.Box, report func(sig, msg string, c any)) *rp.Fail {
+	var first *rp.Fail
+	fail := func(sig, msg string, c any) {
+		if first == nil {
+			first = &rp.Fail{Sig: sig, Msg: msg, Size: 2}
+		}
+		if report != nil {
+			report(sig, msg, c)
+		}
+	}
+	eval := func(class string, c any) {
+		if s != nil {
+			s.Eval()
+			s.Class(class)
+			s.NonTrivial(class + fmt.Sprint(c))
+		}
+	}
+	for _, n := range []int{1, 2, 255, 256, 257, 512, 1000} {
+		var sb strings.Builder
+		var names []string
+		for i := 0; i < n; i++ {
+			name := "t" + gen.Letters(i)
+			names = append(names, name)
+			fmt.Fprintf(&sb, "task %s() {\n    exit %d\n}\n\n", name, 1+i%7)
+		}
+		for _, flags := range [][]string{nil, {"--json"}, {"--quiet"}, {"--force"}} {
+			if err := b.ResetAs(""); err != nil {
+				return &rp.Fail{Sig: "harness", Msg: err.Error()}
+			}
+			if err := writeProject(b, b.Proj, map[string]string{"spokfile": sb.String()}); err != nil {
+				return &rp.Fail{Sig: "harness", Msg: err.Error()}
+			}
+			c := map[string]any{"failing_tasks_requested": n, "flags": flags}
+			eval("many_failing_tasks_in_one_invocation", c)
+			r := b.Run(b.Proj, nil, 2*runTimeout, append(append([]string(nil), flags...), names...)...)
+			stderr := sandbox.Strip(r.Stderr)
+			if r.Exit == 0 {
+				fail("failure-exits-zero", fmt.Sprintf("%d tasks, each with a failing command, requested in one invocation (flags %v): spok exited 0; stderr: %s", n, flags, clip(stderr)), c)
+				continue
+			}
+			named := false
+			for _, nm := range names {
+				if regexp.MustCompile(`\b` + nm + `\b`).MatchString(stderr) {
+					named = true
+					break
+				}
+			}
+			if !named {
+				fail("failing-task-not-identified", fmt.Sprintf("%d failing tasks requested (flags %v): exit %d, but the error names none of them: %q", n, flags, r.Exit, clip(stderr)), c)
+			}
+		}
+	}
+	long := "echo " + strings.Repeat("a-rather-long-argument ", 12) + "&& exit 4"
+	src := "task release() {\n    " + long + "\n}\n"
+	for _, env := range [][]string{nil, {"COLUMNS=80", "LINES=24"}, {"COLUMNS=40", "LINES=24", "TERM=xterm-256color"}, {"COLUMNS=20"}, {"COLUMNS=0"}, {"COLUMNS=1"}} {
+		for _, flags := range [][]string{nil, {"--json"}, {"--quiet"}} {
+			if err := b.ResetAs(""); err != nil {
+				return &rp.Fail{Sig: "harness", Msg: err.Error()}
+			}
+			if err := writeProject(b, b.Proj, map[string]string{"spokfile": src}); err != nil {
+				return &rp.Fail{Sig: "harness", Msg: err.Error()}
+			}
+			c := map[string]any{"failing_command_length": len(long), "environment": env, "flags": flags}
+			eval("long_failing_command_with_terminal_variables", c)
+			r := b.Run(b.Proj, env, runTimeout, append(append([]string(nil), flags...), "release")...)
+			stderr := sandbox.Strip(r.Stderr)
+			if r.Exit == 0 {
+				fail("failure-exits-zero", fmt.Sprintf("a failing command of %d characters in task release (environment %v, flags %v): spok exited 0", len(long), env, flags), c)
+			} else if !regexp.MustCompile(`\brelease\b`).MatchString(stderr) {
+				fail("failing-task-not-identified", fmt.Sprintf("a failing command of %d characters in task release (environment %v, flags %v): exit %d, but the error does not name the task: %q", len(long), env, flags, r.Exit, clip(stderr)), c)
+			}
+		}
+	}
+	return first
 }
 
 func TestReport(t *testing.T) {
